@@ -222,8 +222,11 @@ def check_tables(templates, doc, rec, case, tag):
         if heads != [norm(h) for h in tab.headers]:
             rec.violation(f'headers-differ-{tag}', f'{heads} vs '
                           f'{tab.headers}', case)
-        got_rows = [[(norm(t), h) for t, h in row] for row in got['rows']]
-        exp_rows = [[(norm(t), h) for t, h in row] for row in exp]
+        # (the order of the rows follows the memory layout of the arrays and
+        # is not part of the statement: rows are compared as a multiset)
+        got_rows = sorted([(norm(t), h) for t, h in row]
+                          for row in got['rows'])
+        exp_rows = sorted([(norm(t), h) for t, h in row] for row in exp)
         if got_rows != exp_rows:
             if len(got_rows) != len(exp_rows):
                 why = (f'{len(got_rows)} rows read back, the template holds '
@@ -256,6 +259,35 @@ def check_slices(templates, rng, rec, case, tag):
     for tab in templates:
         if not isinstance(tab, TableTemplate):
             continue
+        # a table joined with a copy of itself: the rows twice, marks too
+        sizes = {int(np.size(c)) for c in tab.columns}
+        if len(sizes) == 1 and 2 <= next(iter(sizes)) <= 40 and all(
+                np.ndim(c) <= 1 for c in tab.columns):
+            full, aligned = expected_rows(tab)
+            if aligned:
+                try:
+                    left = tab.copy()
+                    left.join(tab.copy())
+                    text = render([left])
+                except Exception as err:  # pylint: disable=broad-except
+                    rec.violation(f'join-raised-{type(err).__name__}-{tag}',
+                                  f'{err!r}', case)
+                    continue
+                doc, _ = rstback.parse(text)
+                rec.count('joins_checked')
+                got = rstback.tables(doc)[0]['rows'] if doc is not None \
+                    and rstback.tables(doc) else []
+                got = sorted([(norm(t), h) for t, h in row] for row in got)
+                want = sorted([(norm(t), h) for t, h in row]
+                              for row in full + full)
+                if got != want:
+                    texts_same = [[c[0] for c in r] for r in got] == \
+                        [[c[0] for c in r] for r in want]
+                    rec.violation(('highlights-moved-after-join-' if
+                                   texts_same else 'rows-wrong-after-join-')
+                                  + tag, f'table of {len(full)} rows joined '
+                                  f'with a copy of itself: read {got[:4]}, '
+                                  f'expected {want[:4]}', case)
         if not all(isinstance(c, np.ndarray) and c.ndim >= 1
                    for c in tab.columns):
             continue
@@ -285,8 +317,8 @@ def check_slices(templates, rng, rec, case, tag):
         want = [full[i] for i in numbers[index].reshape(-1)]
         got = rstback.tables(doc)[0]['rows'] if doc is not None and \
             rstback.tables(doc) else []
-        got = [[(norm(t), h) for t, h in row] for row in got]
-        want = [[(norm(t), h) for t, h in row] for row in want]
+        got = sorted([(norm(t), h) for t, h in row] for row in got)
+        want = sorted([(norm(t), h) for t, h in row] for row in want)
         if got != want or warn:
             texts_same = [[c[0] for c in r] for r in got] == \
                 [[c[0] for c in r] for r in want]
@@ -310,8 +342,8 @@ def check_slices(templates, rng, rec, case, tag):
             rec.count('joins_checked')
             got = rstback.tables(doc)[0]['rows'] if doc is not None and \
                 rstback.tables(doc) else []
-            got = [[(norm(t), h) for t, h in row] for row in got]
-            want = [[(norm(t), h) for t, h in row] for row in full]
+            got = sorted([(norm(t), h) for t, h in row] for row in got)
+            want = sorted([(norm(t), h) for t, h in row] for row in full)
             if got != want:
                 rec.violation(f'rows-wrong-after-join-{tag}',
                               f'table of {shape[0]} rows cut at {cut} and '
@@ -442,7 +474,8 @@ def run_case(seed, idx, tier, rec):
                                                   'INTERMEDIATE')))
                 if detailed and read:
                     check_detailed(gen, res, read, verb.name, rec, case, tag)
-            if verb == Verbosity.FULL_DETAILS and repname == 'table':
+            if verb in (Verbosity.FULL_DETAILS, Verbosity.DEFAULT) \
+                    and repname == 'table':
                 check_slices(templates, rng, rec, case, tag)
             rec.seen((kind, truth, verb.name, repname, shape_class,
                       tuple(gen.get('fail', ())), gen.get('style')))
